@@ -364,7 +364,8 @@ def run(ctx):
     lists = [[(d, n)] for d in DIRS for n in NULLS]
     lists += [[('default', 'NULLS LAST'), ('default', 'default'), ('default', 'default')], [('DESC', 'default'), ('default', 'default'), ('ASC', 'NULLS FIRST')],
               [('DESC', 'NULLS FIRST'), ('ASC', 'NULLS LAST'), ('default', 'default'), ('DESC', 'default')], []]
-    for fn in ob_sites:
+    ctx.need(tob is not None, 'SqlalchemyRender.to_order_by not found')
+    for fn in [tob]:
         for terms in lists:
             order_by = [Obj('OrderBy', field=Obj('Identifier', parts=[f'c{i}'], alias=None), direction=d, nulls=n) for i, (d, n) in enumerate(terms)]
             stubs = {'self.to_expression': lambda it, node: Term(node.parts[0]),
@@ -387,7 +388,19 @@ def run(ctx):
                    f'nulls, and nothing is carried from one term to the next', file=FILE, line=fn.lineno,
                    witness=f'select * from t order by {label.lower()}')
     ctx.need(tob is not None, 'SqlalchemyRender.to_order_by not found')
-    ctx.ob('C06.order', 'single-order-translation', len(ob_sites) == 1 and ob_sites[0] is tob,
+    # helpers of to_order_by (methods / module functions it calls, transitively) are part of the one translation the table above interprets
+    fns_all = {m.name: m for m in cls.body if isinstance(m, ast.FunctionDef)}
+    fns_all.update({n.name: n for n in tree.body if isinstance(n, ast.FunctionDef)})
+    helpers_, work_ = {tob.name}, [tob]
+    while work_:
+        f_ = work_.pop()
+        for x in ast.walk(f_):
+            if isinstance(x, ast.Call):
+                nm = x.func.attr if isinstance(x.func, ast.Attribute) and norm(x.func.value) in ('self', cls.name) else (x.func.id if isinstance(x.func, ast.Name) else None)
+                if nm in fns_all and nm not in helpers_ and nm != 'to_expression':
+                    helpers_.add(nm)
+                    work_.append(fns_all[nm])
+    ctx.ob('C06.order', 'single-order-translation', bool(ob_sites) and all(f.name in helpers_ for f in ob_sites),
            f'ordering terms are translated in {[f.name for f in ob_sites]}: a second translation next to to_order_by is not covered by the table above',
            file=FILE, line=tob.lineno)
     wf_branch = [n for n in ast.walk(te) if isinstance(n, ast.If) and 'ast.WindowFunction' in norm(n.test)]
